@@ -1,6 +1,6 @@
 #!/bin/bash
 # Run by /verif/check before C19 (and, through pre-C18.sh, before C18):
-#  1. builds the `wac` CLI from /repo's CURRENT working tree, verification guard off, registry
+#  1. builds the `wac` CLI from /repo's CURRENT working tree (or $WAC_REPO: the scratch copy of tools/mutant-lab.sh), verification guard off, registry
 #     feature off (no network), once with `wit` and once with `wit,wat`;
 #  2. builds the `wit,wat` variant of mc-env (cargo feature `wat`) next to the default build.
 # Everything goes under the harness target directory; nothing is written into /repo.
@@ -16,7 +16,7 @@ if [ "${1:-all}" != "mc-env-only" ]; then
   for v in "wit:wit" "wat:wit,wat"; do
     name="${v%%:*}"; feats="${v#*:}"
     log="$T/build-wac-$name.log"
-    if ! env -u CARGO_TARGET_DIR -u RUSTFLAGS cargo build --release --offline --manifest-path /repo/Cargo.toml \
+    if ! env -u CARGO_TARGET_DIR -u RUSTFLAGS cargo build --release --offline --manifest-path "${WAC_REPO:-/repo}/Cargo.toml" \
          --no-default-features --features "$feats" --bin wac --target-dir "$T/wac-$name" >"$log" 2>&1; then
       echo "MACHINERY-ERROR: build of the wac CLI ($feats) failed (log: $log)" >&2
       tail -40 "$log" >&2
